@@ -70,7 +70,7 @@ theorem gen_ct_is_buffer_valid_eq (dataLen cc sz n : Nat) (h1 : cc * sz < 2^64) 
     GenV.ct_is_buffer_valid dataLen cc sz n = .ok (decide (dataLen = cc * sz * n)) := HC.gx_ct_is_buffer_valid_eq dataLen cc sz n h1 h
 
 
-/-! ### validity (`ctValid`) is preserved by every modelled operation; refusals; exact relationship with canonicity; findings about the validity predicate (a BGV correction factor equal to t is accepted although it is not a unit)
+/-! ### validity (`ctValid`) is preserved by every modelled operation; refusals; exact relationship with canonicity; findings about the validity predicate (the accepted BGV correction factors are 1 ≤ cf ≤ t − 1 — `cf = t` is rejected since the repair of `is_metadata_valid_for` —; for a COMPOSITE t that range still contains non-units, for a PRIME t validity is closed under every operation without any unit hypothesis)
     (statements and hypothesis bundles: Heathcliff/Proofs/C06Y.lean; concrete witnesses in the NonVac world: Heathcliff/Proofs/C06YW.lean) -/
 
 /-- Y1: `ctValid` is exactly: size 0 or 2..16, all polynomials canonical, scale condition, correction factor in range -/
@@ -80,7 +80,7 @@ theorem ctValid_iff : type_of% @HC.ctValid_iff := @HC.ctValid_iff
 theorem ctValid_of_CtCanon : type_of% @HC.ctValid_of_CtCanon := @HC.ctValid_of_CtCanon
 
 /-- Y1: for a NON-EMPTY ciphertext, validity is canonicity plus the scale condition (an iff: the correction-factor ranges of the two
-    predicates coincide, both accept the non-unit `cf = t` for BGV) -/
+    predicates coincide, for BGV both are 1 ≤ cf ≤ t − 1) -/
 theorem ctValid_iff_CtCanon : type_of% @HC.ctValid_iff_CtCanon := @HC.ctValid_iff_CtCanon
 
 /-- Y1, the only difference: the EMPTY ciphertext (size 0) is valid (with the right flags and correction factor) but not `CtCanon` -/
@@ -89,9 +89,13 @@ theorem ctValid_empty : type_of% @HC.ctValid_empty := @HC.ctValid_empty
 /-- Y1: the polynomial / size / correction-factor part of validity does not depend on the scale flags -/
 theorem ctValid_flags : type_of% @HC.ctValid_flags := @HC.ctValid_flags
 
-/-- Y1 (finding about the predicate): for BGV, replacing the correction factor of a valid ciphertext by `t` (NOT a unit modulo t)
-    keeps it valid -/
-theorem ctValid_accepts_cf_t : type_of% @HC.ctValid_accepts_cf_t := @HC.ctValid_accepts_cf_t
+/-- Y1 (the repaired boundary): for BGV a correction factor EQUAL to `t` (≡ 0, not a unit modulo t) is rejected, whatever the rest of
+    the ciphertext is (before the repair of `is_metadata_valid_for` it was accepted: `correction_factor > plain_modulus`) -/
+theorem ctValid_rejects_cf_t : type_of% @HC.ctValid_rejects_cf_t := @HC.ctValid_rejects_cf_t
+
+/-- Y1: for BGV the accepted correction factors are exactly 1 ≤ cf ≤ t − 1: replacing the factor of a valid ciphertext by `f` keeps it
+    valid iff `f ≠ 0 ∧ f < t` -/
+theorem ctValid_bgv_cf_range : type_of% @HC.ctValid_bgv_cf_range := @HC.ctValid_bgv_cf_range
 
 /-- Y2 `negate`: total on valid ciphertexts, result valid (same size, representation, correction factor) -/
 theorem ctNegate_valid : type_of% @HC.ctNegate_valid := @HC.ctNegate_valid
@@ -111,6 +115,10 @@ theorem ctTranslateBalanced_valid : type_of% @HC.ctTranslateBalanced_valid := @H
 /-- Y2, `.ok` form: whenever the balanced add / sub of valid operands succeeds and (in case the factors differ) the SECOND factor
     is a unit, the result is valid (success already certifies that the first factor is a unit) -/
 theorem ctTranslateBalanced_preserves_valid : type_of% @HC.ctTranslateBalanced_preserves_valid := @HC.ctTranslateBalanced_preserves_valid
+
+/-- Y2 `add` / `sub` with balancing, PRIME plain modulus: strong closure — total on valid operands in the same representation, the
+    result is valid; no unit hypothesis (every accepted factor 1 ≤ cf ≤ t − 1 is a unit modulo a prime) -/
+theorem ctTranslateBalanced_valid_prime : type_of% @HC.ctTranslateBalanced_valid_prime := @HC.ctTranslateBalanced_valid_prime
 
 /-- Y3 / Y4 refusal: an empty operand is refused by the dyadic product -/
 theorem ctMultiplyDyadic_refuse_empty : type_of% @HC.ctMultiplyDyadic_refuse_empty := @HC.ctMultiplyDyadic_refuse_empty
@@ -134,22 +142,27 @@ theorem bgvMultiply_valid : type_of% @HC.bgvMultiply_valid := @HC.bgvMultiply_va
 
 theorem bgvMultiply_preserves_valid : type_of% @HC.bgvMultiply_preserves_valid := @HC.bgvMultiply_preserves_valid
 
+/-- Y2 `bgv_multiply`, PRIME plain modulus: strong closure — valid non-empty NTT-form operands give a valid result (with a unit
+    correction factor); no unit hypothesis (every accepted factor 1 ≤ cf ≤ t − 1 is a unit modulo a prime) -/
+theorem bgvMultiply_valid_prime : type_of% @HC.bgvMultiply_valid_prime := @HC.bgvMultiply_valid_prime
+
 /-- Y2 `multiply_plain_ntt`: total on valid NTT-form ciphertexts and canonical plaintexts, result valid -/
 theorem ctMultiplyPlainNtt_valid : type_of% @HC.ctMultiplyPlainNtt_valid := @HC.ctMultiplyPlainNtt_valid
 
 theorem ctMultiplyPlainNtt_preserves_valid : type_of% @HC.ctMultiplyPlainNtt_preserves_valid := @HC.ctMultiplyPlainNtt_preserves_valid
 
-/-- FINDING (validity predicate): `bgv_multiply` of two VALID ciphertexts (correction factors t = 5 and 2) succeeds and returns a
-    ciphertext with correction factor 0, which is NOT valid: validity is not preserved without the unit hypothesis -/
+/-- FINDING (validity predicate, composite t): `bgv_multiply` of two VALID ciphertexts (t = 4, correction factors 2 and 2, in the accepted
+    range but not units) succeeds and returns a ciphertext with correction factor 0, which is NOT valid: validity is not preserved
+    without the unit hypothesis when t is composite (for prime t it is: `bgvMultiply_valid_prime`) -/
 theorem bgvMultiply_valid_needs_unit : type_of% @HC.bgvMultiply_valid_needs_unit := @HC.bgvMultiply_valid_needs_unit
 
-/-- FINDING: a VALID first operand (correction factor t) is REFUSED by the balanced add / sub ("accepted by any later operation"
-    fails for the non-unit factor that `ctValid` admits) -/
+/-- FINDING (composite t): a VALID first operand (t = 4, correction factor 2) is REFUSED by the balanced add / sub ("accepted by any
+    later operation" fails for the non-unit factors that `ctValid` admits when t is composite) -/
 theorem ctTranslateBalanced_refuses_valid : type_of% @HC.ctTranslateBalanced_refuses_valid := @HC.ctTranslateBalanced_refuses_valid
 
-/-- FINDING: with a VALID second operand of correction factor t the balanced add / sub SUCCEEDS with correction factor 0:
-    the result is not valid -/
-theorem ctTranslateBalanced_valid_needs_unit : type_of% @HC.ctTranslateBalanced_valid_needs_unit := @HC.ctTranslateBalanced_valid_needs_unit
+/-- FINDING (composite t): with a unit first factor (1) and a VALID non-unit second factor (2, t = 4) the balanced add / sub SUCCEEDS and
+    the result is valid, but its correction factor (2) is again not a unit: validity does not imply that the BGV factor is a unit -/
+theorem ctTranslateBalanced_valid_nonunit_result : type_of% @HC.ctTranslateBalanced_valid_nonunit_result := @HC.ctTranslateBalanced_valid_nonunit_result
 
 /-- Y2 `mod_switch_drop_to_next` (CKKS `mod_switch_to_next`, also the plain drop): total on valid ciphertexts at a level with ≥ 2
     moduli (CKKS: NTT form), the result is valid at the next level -/
@@ -164,15 +177,28 @@ theorem modSwitchScaleNext_bfv_valid : type_of% @HC.modSwitchScaleNext_bfv_valid
     new scale use `ctValid_flags`) -/
 theorem modSwitchScaleNext_ckks_valid : type_of% @HC.modSwitchScaleNext_ckks_valid := @HC.modSwitchScaleNext_ckks_valid
 
-/-- Y2 BGV `mod_switch_to_next`: total on valid NTT-form ciphertexts; the polynomials are canonical at the next level, the new
-    correction factor is `cf·q_L^{-1} mod t`, and the result is valid IF AND ONLY IF `cf ≠ t` (in particular for every unit) -/
+/-- Y2 BGV `mod_switch_to_next`, strong closure: total on valid NTT-form ciphertexts; the polynomials are canonical at the next level,
+    the new correction factor is `cf·q_L^{-1} mod t`, and the result is VALID at the next level — for every valid operand, whatever t is
+    (q_L^{-1} is a unit modulo t, so a factor in [1, t − 1] cannot be mapped to 0) -/
+theorem modSwitchScaleNext_bgv_valid_closed : type_of% @HC.modSwitchScaleNext_bgv_valid_closed := @HC.modSwitchScaleNext_bgv_valid_closed
+
+/-- Y2 BGV `mod_switch_to_next`: the result is valid IF AND ONLY IF `cf ≠ t` (statement kept from before the repair of the validity
+    predicate; since `ctValid` now rejects `cf = t`, both sides hold for every valid operand) -/
 theorem modSwitchScaleNext_bgv_valid_iff : type_of% @HC.modSwitchScaleNext_bgv_valid_iff := @HC.modSwitchScaleNext_bgv_valid_iff
 
 theorem modSwitchScaleNext_bgv_valid : type_of% @HC.modSwitchScaleNext_bgv_valid := @HC.modSwitchScaleNext_bgv_valid
 
+/-- Y2 BGV `mod_switch_to_next`, PRIME plain modulus: valid operand ⇒ valid result at the next level, and the new correction factor
+    is again a unit (no unit hypothesis on the operand) -/
+theorem modSwitchScaleNext_bgv_valid_prime : type_of% @HC.modSwitchScaleNext_bgv_valid_prime := @HC.modSwitchScaleNext_bgv_valid_prime
+
 /-- Y2, `.ok` form for all three schemes: whenever the scheme-specific switch of a valid ciphertext succeeds (and, for BGV, the
     correction factor is not t), the result is valid at the next level.  `Level.WF` is needed for the NTT-form schemes only. -/
 theorem modSwitchScaleNext_preserves_valid : type_of% @HC.modSwitchScaleNext_preserves_valid := @HC.modSwitchScaleNext_preserves_valid
+
+/-- Y2, `.ok` form for all three schemes, strong closure: whenever the scheme-specific switch of a valid ciphertext succeeds, the result is
+    valid at the next level (no side condition on the BGV correction factor: `ctValid` rejects `cf = t`) -/
+theorem modSwitchScaleNext_preserves_valid_closed : type_of% @HC.modSwitchScaleNext_preserves_valid_closed := @HC.modSwitchScaleNext_preserves_valid_closed
 
 /-- Y3: operands in different representations are never accepted by the balanced add / sub either (on the balancing path the
     error is the first one met: a failed balancing, or the representation check after the scaling) -/
